@@ -217,6 +217,16 @@ fn impl_pattern(src: &str) -> String {
 }
 
 fn disagree(ev: &mut Ev, op: &str, request: &str, src: &str, got: &str, want: &str) {
+    if got.starts_with("panic") {
+        // a panic of the front end on a string literal violates the property itself (C18)
+        ev.violation(
+            "string-literal kind=panic",
+            &format!("the parser panics on the string literal {src:?}: {got}"),
+            json!({"kind": "string", "source": src, "impl": got, "model": want, "request": request}),
+            true,
+        );
+        return;
+    }
     ev.violation(
         &format!("string op={op} kind=differs-from-model"),
         &format!("string literal {src:?}: implementation `{got}` but the model ({request}) gives `{want}`"),
@@ -344,6 +354,16 @@ fn run(ev: &mut Ev, model: &mut Model, opts: &Opts, roundtrip: bool) {
                 ev.hit("string:roundtrip-single:formatted");
                 if out != format!("{src}\n") {
                     disagree(ev, "escape_single_line_text", &format!("escape-single {}", hx(&v)), &src, &out, &format!("{src}\n"));
+                    // oracle: does the value survive?
+                    let (got2, _) = impl_term(&out);
+                    if got2 != format!("text {}", hx(&v)) {
+                        ev.violation(
+                            "string-roundtrip style=single",
+                            &format!("single-line string value {v:?} becomes {got2} after formatting"),
+                            json!({"kind": "string", "value": v, "source": src, "formatted": out, "reparsed": got2}),
+                            true,
+                        );
+                    }
                 }
             }
             // multi-line: the canonical rendering from the model is the input; format must reproduce
@@ -382,10 +402,11 @@ fn run(ev: &mut Ev, model: &mut Model, opts: &Opts, roundtrip: bool) {
             let Some(p) = prog else { continue };
             let out = catch(|| format_program(&p, &src)).unwrap_or_else(|e| format!("<panic {e}>"));
             if out != canon {
+                // (the oracle below still decides whether the value survives)
                 disagree(ev, "multiline_string_doc+print+collapse_blanks", &format!("fmt-ml {depth} {}", hx(&v)), &src, &out, &canon);
-                continue;
+            } else {
+                ev.hit("string:roundtrip-multi:format-agrees-with-model");
             }
-            ev.hit("string:roundtrip-multi:format-agrees-with-model");
             // (2) oracle: the value survives formatting
             let (got2, _) = impl_term(&out);
             let pred = model.ask(&format!("fmt-ml-roundtrip {depth} {}", hx(&v)));
@@ -393,7 +414,7 @@ fn run(ev: &mut Ev, model: &mut Model, opts: &Opts, roundtrip: bool) {
                 Some(("some", h)) => format!("text {h}"),
                 _ => "reject".into(),
             };
-            if got2 != pred2 {
+            if out == canon && got2 != pred2 {
                 disagree(ev, "parse of formatted multi-line literal", &format!("fmt-ml-roundtrip {depth} {}", hx(&v)), &out, &got2, &pred2);
             }
             if got2 != want {
